@@ -9,6 +9,7 @@ import (
 	"fmt"
 	"math"
 	"reflect"
+	"sort"
 
 	"github.com/ysugimoto/falco/v2/ast"
 )
@@ -125,6 +126,22 @@ func diff(path string, a, b reflect.Value) string {
 		}
 		for i := 0; i < a.Len(); i++ {
 			if d := diff(fmt.Sprintf("%s[%d]", path, i), a.Index(i), b.Index(i)); d != "" {
+				return d
+			}
+		}
+		return ""
+	case reflect.Map:
+		if a.Len() != b.Len() {
+			return fmt.Sprintf("%s: %d keys vs %d", path, a.Len(), b.Len())
+		}
+		keys := a.MapKeys()
+		sort.Slice(keys, func(i, j int) bool { return fmt.Sprint(keys[i].Interface()) < fmt.Sprint(keys[j].Interface()) })
+		for _, k := range keys {
+			bv := b.MapIndex(k)
+			if !bv.IsValid() {
+				return fmt.Sprintf("%s: key %v only on one side", path, k.Interface())
+			}
+			if d := diff(fmt.Sprintf("%s[%v]", path, k.Interface()), a.MapIndex(k), bv); d != "" {
 				return d
 			}
 		}
